@@ -352,11 +352,21 @@ func (s *Server) Shutdown(ctx context.Context) error {
 			return err
 		}
 
+		// do not keep the server locked while waiting for busy connections to finish: the accept loop (tracking a
+		// connection it accepted just before the listener was closed), ending connections and Addr need the lock, and
+		// Serve could not return until this call gives up
+		s.mu.Unlock()
 		select {
 		case <-ctx.Done():
+			simBeforeLock(&s.mu, true)
+			s.mu.Lock()
+			simAfterLock(&s.mu)
 			return ctx.Err()
 		case <-timer.C:
 			timer.Reset(50 * time.Millisecond)
 		}
+		simBeforeLock(&s.mu, true)
+		s.mu.Lock()
+		simAfterLock(&s.mu)
 	}
 }
